@@ -1,14 +1,9 @@
 SPECIFICATION GSpec
 CONSTANTS
-  Sizes <- SizesSmall
-  NB = 4
-  Kind = "small"
-  UnitMs = 250
-  Abs = TRUE
+  Kinds = {"small"}
   Times = {1, 2, 5, 14, 17, 21, 50, 61}
-  Deltas <- NoTimes
   Start = 1
   ChkSet = {FALSE, TRUE}
-  GenDepth = 3
+  GenDepth = 4
 INVARIANT Emit
 CHECK_DEADLOCK FALSE
